@@ -122,6 +122,8 @@ def edit_finding(d):
             return "C17-F10"
         if rule == "after-colon" and shape == "insert" and nxt is not None and nxt.string == "{":
             return "C17-F11"
+        if rule == "retokenised" and d["removed"].strip(" \t") == ":" and d["inserted"] == ": " and nxt is not None and nxt.string == "{":
+            return "C17-F11"        # the same edit, seen as one region because the token order around it is unreliable
         if rule == "retokenised" and (re.fullmatch(r"(\{[ \t]+)+\{", d["removed"]) and d["inserted"] == d["removed"].replace(" ", "").replace("\t", "")
                                        or re.fullmatch(r"(\}[ \t]+)+\}", d["removed"]) and d["inserted"] == d["removed"].replace(" ", "").replace("\t", "")):
             return "C17-F10"        # `{ {` glued to `{{`: the text now tokenises as an escaped brace
